@@ -12,7 +12,9 @@ RULE = ("cases = compute_L configurations: gp_type in {full, full_nystroem, spar
         "wrong shape) x kernels x jitter; each case checks L L^T against the stated matrix, (K + jitter I) - L L^T PSD, the "
         "shape, and compares with the Lean model (L itself for Cholesky-based factors, assembly for Nystroem factors given "
         "the eigen-pairs); non-trivial = accepted configuration with L L^T different from K + jitter I or full type")
-PARTIAL = ["'never above K' for inducing-point factors needs a PSD kernel (Schur complement; named hypothesis in Lean)",
+PARTIAL = ["'never above K' for inducing-point factors needs a PSD kernel (Schur complement): proved without matrix hypothesis for "
+           "expressions over ExpQuad / Linear leaves (inducing_loewner_closed_tree); for Matern / Exponential / RatQuad leaves the "
+           "kernel's PSD-ness is a named hypothesis (inducing_loewner_of_psd_kernel)",
            "eigh / qr are external: contract (orthonormal eigenvectors, A = V diag s V^T; Q^T Q = I, Q R = C) assumed, "
            "exercised against numpy here"]
 ASSUMPTIONS = ["numpy.linalg.eigh / solve as reference"]
